@@ -7,7 +7,7 @@ from ..build import sym
 COND_CLASSES = ["ConditionalGaussianPDF", "ConditionalGaussianDiagPDF", "ConditionalIdentityGaussianPDF",
                 "ConditionalIdentityDiagGaussianPDF"]
 BATCH_CTX = ["1/1", "n/1", "1/n"]          # (R_cond / R_x)   ; "n/n" raises RuntimeError("... multiple marginals with multiple conditional is not implemented") in the library: outside its domain
-ROUTE_CTX = ["1/1@Sigma", "1/1@Lambda", "n/1@Lambda", "1/1@updated", "n/1@updated", "1/1@diagprior"]     # constructor routes of the conditional (covariance only / precision only)
+ROUTE_CTX = ["1/1@Sigma", "1/1@Lambda", "n/1@Lambda", "1/1@updated", "n/1@updated", "1/1@diagprior", "n/1@Dy=1", "1/n@Dx=1"]     # constructor routes of the conditional (covariance only / precision only)
 REGIMES = ["Dx>Dy", "Dx<=Dy"]
 
 
@@ -47,6 +47,15 @@ def setup_cond(cls, ctx, regime="Dx<=Dy", px_args="full"):
     """returns I, cond, p_x, sizes"""
     ctx, cargs = split_ctx(ctx)
     Rc, Rx, Dy, Dx = cond_sizes(cls, ctx)
+    if cargs in ("Dy=1", "Dx=1"):
+        # special sizes: a shortcut that switches on at `Dy == 1` / `Dx == 1` is never entered by the generic-size contexts
+        if is_identity(cls):
+            Dy = Dx = D(1)
+        elif cargs == "Dy=1":
+            Dy = D(1)
+        else:
+            Dx = D(1)
+        cargs = "full"
     I = build.new_interp(facts=regime_facts(Dx, Dy, regime))
     if cargs == "updated":
         # history context: the noise covariance was replaced through the public mutator update_Sigma
